@@ -63,6 +63,44 @@ CLAIMED['C17'] = dict(
          'tables, more than 11 channels.',
     ref='4/C17', technique=TECH)
 
+CLAIMED['C03'] = dict(
+    text='to_rfi is executed symbolically with real-valued events, a0, a1, gain (10**x an '
+         'uninterpreted function), resolutions from a table, symbolic presence of gain, explicit '
+         'override vs taken-from-sample per setting and 8-13 channel selection forms; converted '
+         'cells must equal the amplifier law over the reals, every other cell/metadata be '
+         'unchanged; batch == sequential in any order == by name == by position; inconsistent '
+         'lengths refused.',
+    note='Trusted: symnp, CrossHair, z3 (nonlinear real arithmetic). Decided over the reals: IEEE '
+         'rounding of the law is outside (C07 covers exactness of ranges). 2 events x 3 channels.',
+    ref='4/C03', technique=TECH + '; real arithmetic with 10**x uninterpreted')
+CLAIMED['C06'] = dict(
+    text='to_mef is executed in the free term algebra: events are opaque atoms, the k<=3 curves '
+         'are distinct uninterpreted symbols; pairing order, name/position spelling, requested '
+         'subset/order, uncovered requests and unequal list lengths are symbolic. An equality '
+         'proved on terms holds for every interpretation of the curves.',
+    note='Trusted: symnp, CrossHair. 2 events x 4 channels, k<=3. The partial built by '
+         'get_transform_fxn is exercised in C02.',
+    ref='4/C06', technique='symbolic execution (CrossHair) in the free term algebra')
+CLAIMED['C07'] = dict(
+    text='Bitwise equality of converted range limits and converted limit events is decided by '
+         'congruence over path-tagged transcendental functions (array vs scalar evaluation are '
+         'different symbols with no axiom relating them); saturation-gate commutation follows by '
+         'order reasoning under a stated monotonicity assumption. Found and led to the repair of a '
+         'genuine 1-ulp defect (see known_findings.json).',
+    note='Assumes NumPy vector pow/exp is position- and length-independent (re-checked concretely '
+         'on every run) and that the rounded law is strictly increasing on occurring arguments. '
+         'Trusted: symnp, CrossHair, z3.',
+    ref='4/C07', technique='congruence over evaluation-path-tagged uninterpreted functions '
+                           '(CrossHair + z3)')
+CLAIMED['C12'] = dict(
+    text='All ten statistics are executed symbolically on 3x2 (4x2) symbolic events (integers '
+         'with ties / positive reals), three containers and seven channel forms, against textbook '
+         'definitions over the reals; the model replays the NumPy subclass hook sequence that '
+         'matters (percentile on a float sample).',
+    note='Trusted: symnp reductions and the scipy.stats.gmean/mode stubs, CrossHair, z3. FP '
+         'rounding of reductions is outside.',
+    ref='4/C12', technique=TECH)
+
 NA = {
     'C15': 'whole-program run through compiled third-party code and the file system (openpyxl/'
            'pandas xlsx I/O, matplotlib rendering): cannot be executed symbolically; stubbing it '
